@@ -421,6 +421,51 @@ def shard(task):
   return {'stats': stats, 'violations': list(vios.values())}
 
 
+def seeded_values(quick=True):
+  """Values of every seeded (pseudo-random but reproducible) experimenter on a few points: what a fresh interpreter must give
+  again, whatever its string-hash salt."""
+  vz = _vz()
+  from vizier._src.benchmarks.experimenters import infeasible_experimenter, noisy_experimenter, normalizing_experimenter, permuting_experimenter
+  bs = bases(True)
+  out = {}
+  for bname in ('bbob:Sphere:2', 'branin', 'simplekd:corner:True'):
+    mk = bs[bname]
+    pts = list(grid(mk().problem_statement(), cap=3))[:12]
+    stacks = {}
+    for noise in ('SEVERE_GAUSSIAN', 'MODERATE_UNIFORM', 'SEVERE_ADDITIVE_GAUSSIAN', 'MODERATE_SELDOM_CAUCHY', 'LIGHT_ADDITIVE_UNIFORM'):
+      for sd in (0, 7):
+        stacks['noisy(%s,seed=%d)' % (noise, sd)] = lambda noise=noise, sd=sd: noisy_experimenter.NoisyExperimenter.from_type(mk(), noise, seed=sd)
+    stacks['hashing-infeasible(seed=1)'] = lambda: infeasible_experimenter.HashingInfeasibleExperimenter(mk(), infeasible_prob=0.5, seed=1)
+    stacks['normalizing'] = lambda: normalizing_experimenter.NormalizingExperimenter(mk(), num_normalization_samples=10)
+    fin = [pc.name for pc in mk().problem_statement().search_space.parameters if pc.type in (vz.ParameterType.DISCRETE, vz.ParameterType.CATEGORICAL)]
+    if fin:
+      stacks['permuting(seed=3)'] = lambda: permuting_experimenter.PermutingExperimenter(mk(), fin, seed=3)
+    for sname, mk_s in stacks.items():
+      try:
+        r = evaluate(mk_s(), pts, 2)
+        out['%s(%s)' % (sname, bname)] = [None if metrics_of(t) is None else sorted((k, repr(v)) for k, v in metrics_of(t).items()) for t, _ in r]
+      except Exception as e:  # pylint: disable=broad-except
+        out['%s(%s)' % (sname, bname)] = 'ERR:' + type(e).__name__
+  return out
+
+
+def child(task):
+  """One fresh interpreter with the given PYTHONHASHSEED."""
+  import json
+  import os
+  import subprocess
+  import sys
+  env = dict(os.environ)
+  env['PYTHONHASHSEED'] = str(task['hashseed'])
+  verif = os.path.dirname(os.path.dirname(os.path.abspath(__file__)))
+  code = 'import json,sys; from vfw import boot; boot.boot(); from props import c20; sys.stdout.write("\\n@@RESULT@@" + json.dumps(c20.seeded_values()) + "\\n")'
+  p = subprocess.run([sys.executable, '-c', code], cwd=verif, env=env, capture_output=True, text=True, timeout=1500)
+  for line in p.stdout.splitlines():
+    if line.startswith('@@RESULT@@'):
+      return {'hashseed': task['hashseed'], 'result': json.loads(line[len('@@RESULT@@'):])}
+  return {'hashseed': task['hashseed'], 'result': None, 'stderr': p.stderr[-600:]}
+
+
 def run(ctx):
   names = list(bases(ctx.quick))
   tasks = []
@@ -436,7 +481,21 @@ def run(ctx):
     for k in tot:
       tot[k] += r['stats'][k]
     ctx.extend(r['violations'])
-  return {'evaluations': tot['evaluations'], 'distinct_nontrivial': tot['nontrivial'],
+  # seeded experimenters in fresh interpreters with different string-hash salts
+  kids = list(ctx.pmap('child', [{'hashseed': h} for h in ((0, 1, 4242) if ctx.quick else (0, 1, 2, 4242, 987654321))]))
+  if kids[0]['result'] is None:
+    from vfw.runner import HarnessError
+    raise HarnessError('seeded-values child failed: %s' % kids[0].get('stderr'))
+  for k in kids[1:]:
+    if k['result'] is None:
+      ctx.violation('C20|fresh-process-fails|hashseed', 'the seeded-values run with PYTHONHASHSEED=%s failed: %s' % (k['hashseed'], k.get('stderr')), {'experimenter': 'seeded'})
+      continue
+    for stack, vals in kids[0]['result'].items():
+      tot['evaluations'] += len(vals) if isinstance(vals, list) else 0
+      if k['result'].get(stack) != vals:
+        ctx.violation('C20|seeded-not-reproducible-across-processes|%s' % stack.split('(')[0], '%s: with the same seed a fresh interpreter (PYTHONHASHSEED=%s) gives %s, another (PYTHONHASHSEED=0) gave %s' % (
+            stack, k['hashseed'], str(k['result'].get(stack))[:200], str(vals)[:200]), {'experimenter': 'seeded'})
+  return {'evaluations': tot['evaluations'], 'distinct_nontrivial': tot['nontrivial'], 'fresh_interpreters': len(kids), 'seeded_stacks': len(kids[0]['result']),
           'rule': 'evaluations = trials evaluated; distinct_nontrivial = distinct experimenter stacks (base or wrapper(inner)) that were constructed and checked on their whole grid; '
                   'stacks a wrapper refuses to build (e.g. shifting over a non-DOUBLE space) are counted under refused',
           'samples': [{'stack': 'shifting(0.5,True)(signflip(bbob:Sphere:2))', 'points': 9}, {'stack': 'hypercube(region-infeasible(branin))'}],
